@@ -80,6 +80,84 @@ def m_alpha_go_enum_const(r):
     sub1(r + "/api/v3alpha/api.pb.go", "System_NUGET              System = 8", "System_NUGET              System = 9")
 
 
+def descedit(*args):
+    godir = os.path.join(V, "harness/go")
+    env = dict(os.environ, GOFLAGS="-mod=mod", GOPROXY="off", GOSUMDB="off", GOTOOLCHAIN="local", CGO_ENABLED="0")
+    binp = os.path.join(V, "build/descedit")
+    subprocess.run(["go", "build", "-o", binp, "./cmd/descedit"], cwd=godir, env=env, check=True)
+    subprocess.run([binp] + list(args), check=True)
+
+
+def m_v3_client_wrong_const(r):
+    # the GetVersion client method invokes GetPackage's constant
+    sub1(r + "/api/v3/api_grpc.pb.go", "c.cc.Invoke(ctx, Insights_GetVersion_FullMethodName,",
+         "c.cc.Invoke(ctx, Insights_GetPackage_FullMethodName,")
+
+
+def m_v3_handler_swapped(r):
+    sub1(r + "/api/v3/api_grpc.pb.go", 'MethodName: "GetPackage",\n\t\t\tHandler:    _Insights_GetPackage_Handler',
+         'MethodName: "GetPackage",\n\t\t\tHandler:    _Insights_GetVersion_Handler')
+
+
+def m_v3_handler_calls_other(r):
+    sub1(r + "/api/v3/api_grpc.pb.go", "return srv.(InsightsServer).GetAdvisory(ctx, in)", "return srv.(InsightsServer).GetAdvisory(ctx, in) // x")
+    sub1(r + "/api/v3/api_grpc.pb.go", "FullMethod: Insights_GetAdvisory_FullMethodName", "FullMethod: Insights_GetProject_FullMethodName")
+
+
+def m_v3_go_field_type(r):
+    sub1(r + "/api/v3/api.pb.go", "StarsCount int32 `", "StarsCount int64 `")
+    sub1(r + "/api/v3/api.pb.go", "GetStarsCount() int32", "GetStarsCount() int64")
+
+
+def m_v3_json_tag(r):
+    sub1(r + "/api/v3/api.pb.go", 'json:"stars_count,omitempty"', 'json:"starsCount,omitempty"')
+
+
+def m_v3_proto_idempotency(r):
+    sub1(r + "/api/v3/api.proto", '      get: "/v3/query"\n    };', '      get: "/v3/query"\n    };\n    option idempotency_level = NO_SIDE_EFFECTS;')
+
+
+def m_alpha_proto_packed(r):
+    # a repeated scalar field written unpacked in the .proto only
+    sub1(r + "/api/v3alpha/api.proto", "  repeated string licenses = 3;", "  repeated string licenses = 3;\n  repeated int32 extra = 99 [packed = false];")
+
+
+def m_alpha_proto_import_only(r):
+    # import added to the .proto without regenerating: the Go code is stale
+    sub1(r + "/api/v3alpha/api.proto", 'import "google/protobuf/timestamp.proto";',
+         'import "google/protobuf/timestamp.proto";\nimport "google/api/field_behavior.proto";')
+
+
+def m_resolve_moved_changed(r):
+    sub1(r + "/util/resolve/resolve.go", "\tPyPI          = System(apipb.System_PYPI)\n", "")
+    open(r + "/util/resolve/systems2.go", "w").write(
+        'package resolve\n\nimport apipb "deps.dev/api/v3"\n\nconst PyPI = System(apipb.System_NUGET)\n')
+
+
+def h_resolve_moved(r):
+    sub1(r + "/util/resolve/resolve.go", "\tPyPI          = System(apipb.System_PYPI)\n", "")
+    open(r + "/util/resolve/systems2.go", "w").write(
+        'package resolve\n\nimport apipb "deps.dev/api/v3"\n\nconst PyPI = System(apipb.System_PYPI)\n')
+
+
+def h_alpha_extra_binding(r):
+    # v3alpha serves Query under a second path too (consistently in .proto and generated code)
+    sub1(r + "/api/v3alpha/api.proto", '      get: "/v3alpha/query"\n', '      get: "/v3alpha/query"\n      additional_bindings { get: "/v3alpha/q2" }\n')
+    descedit(r + "/api/v3alpha/api.pb.go", "add-binding", "Query", "/v3alpha/q2")
+
+
+def h_alpha_new_imports(r):
+    # imports outside the fixed table, used only by options the property does not speak about
+    sub1(r + "/api/v3alpha/api.proto", 'import "google/protobuf/timestamp.proto";',
+         'import "google/protobuf/timestamp.proto";\nimport "google/api/field_behavior.proto";\nimport "google/api/resource.proto";')
+    sub1(r + "/api/v3alpha/api.proto", "message PackageKey {\n", "message PackageKey {\n  option (google.api.resource) = { type: \"deps.dev/Package\" pattern: \"p/{p}\" };\n")
+    sub1(r + "/api/v3alpha/api.proto", "  string id = 1;", "  string id = 1 [(google.api.field_behavior) = OPTIONAL];")
+    p = r + "/api/v3alpha/api.pb.go"
+    descedit(p, "add-import", "google/api/field_behavior.proto")
+    descedit(p, "add-import", "google/api/resource.proto")
+    descedit(p, "field-behavior", "ProjectKey", "id")
+
+
 def m_alpha_proto_drop_field(r):
     sub1(r + "/api/v3alpha/api.proto", "  bool is_deprecated = 12;", "")
 
@@ -112,6 +190,18 @@ MUTANTS = [
     ("alpha_proto_drop_field", m_alpha_proto_drop_field, 1),
     ("v3_struct_tag", m_v3_struct_tag, 1),
     ("alpha_go_enum_const", m_alpha_go_enum_const, 1),
+    ("v3_client_wrong_const", m_v3_client_wrong_const, 1),
+    ("v3_handler_swapped", m_v3_handler_swapped, 1),
+    ("v3_handler_calls_other", m_v3_handler_calls_other, 1),
+    ("v3_go_field_type", m_v3_go_field_type, 1),
+    ("v3_json_tag", m_v3_json_tag, 1),
+    ("v3_proto_idempotency", m_v3_proto_idempotency, 1),
+    ("alpha_proto_packed", m_alpha_proto_packed, 1),
+    ("alpha_proto_import_only", m_alpha_proto_import_only, 1),
+    ("resolve_moved_changed", m_resolve_moved_changed, 1),
+    ("harmless_resolve_moved", h_resolve_moved, 0),
+    ("harmless_alpha_extra_binding", h_alpha_extra_binding, 0),
+    ("harmless_alpha_new_imports", h_alpha_new_imports, 0),
     ("harmless_comments", h_comments, 0),
     ("harmless_go_comment", h_go_comment, 0),
 ]
